@@ -87,7 +87,22 @@ func TestZeta(t *testing.T) {
 }
 '''
 
-PATTERNS = ["", "TestAlpha", "^TestAlpha$", "TestZeta", "Alpha|Zeta", "TestAlpha/Sub1", "TestAlpha/Sub2", "TestBeta", "Beta$",
+Q_TEST = '''package bb
+
+import (
+	"testing"
+
+	"github.com/gkampitakis/go-snaps/snaps"
+)
+
+// the function itself makes no snapshot: under -run 'Test.*/ping' it runs, its snapshot-making sub-test does not
+func TestQuery(t *testing.T) {
+	t.Run("ping", func(t *testing.T) {})
+	t.Run("schema", func(t *testing.T) { snaps.MatchSnapshot(t, "query schema") })
+}
+'''
+
+PATTERNS = ["", "Test.*/ping", "TestQuery/ping", "TestAlpha", "^TestAlpha$", "TestZeta", "Alpha|Zeta", "TestAlpha/Sub1", "TestAlpha/Sub2", "TestBeta", "Beta$",
             "TestZeta|Sub2", "TestZeta|1", "TestAlphabet|1", "TestAlphabet|Sub2", "^TestZ", "TestSkipper", "TestPartly", "TestPartly/runs", "Alphabet"]
 
 
@@ -122,6 +137,11 @@ class C08(CleanBase):
             for t in skipped:
                 # entries of a skipped test and of its child / of a sibling sharing the prefix
                 extra_entries += [(t + b"/child - 1", b"child of skipped"), (t + b"x - 1", b"sibling sharing the prefix")]
+                if b"." in t.split(b"/")[-1] and t.split(b"/")[-1].replace(b".", b"") not in (b"", b"/"):
+                    # a name that only LOOKS like the skipped one when the latter is read as a regular expression (`.` = any byte)
+                    look = b"/".join(t.split(b"/")[:-1] + [t.split(b"/")[-1].replace(b".", b"x", 1)])
+                    if look != t and look not in tests:
+                        extra_entries.append((look + b" - 1", b"lookalike sibling"))
             if extra_entries:
                 ops[0] = G.op_putfile(b"def/zz_verif_trace_test.snap", unhx(ops[0]["content"]) + b"".join(frame(i, b) for i, b in extra_entries))
             run2 = []
@@ -176,6 +196,12 @@ class C08(CleanBase):
                     fails.append({"msg": "entry [%s] of a skipped test (or descendant) listed as obsolete" % i.decode("latin-1")})
         # a skip protects exactly that test and its descendants: the prefix sibling `<name>x - 1` is stale and must be reported
         for s in skipped:
+            last = s.split(b"/")[-1]
+            look = b"/".join(s.split(b"/")[:-1] + [last.replace(b".", b"x", 1)]) + b" - 1"
+            lname = look[:-4]
+            if b"." in last and look in dict(eb) and look not in otests and lname not in skipped and not any(lname.startswith(t + b"/") for t in skipped) \
+                    and not any(n == "match" and unhx(kv["test"]) == lname for n, kv in ops):
+                fails.append({"msg": "entry [%s] is not the skipped test nor a descendant (its name only matches it as a regular expression) but was protected" % look.decode("latin-1")})
             sib = s + b"x - 1"
             if sib in dict(eb) and sib not in otests and not any((s + b"x") == t or (s + b"x").startswith(t + b"/") for t in skipped):
                 live = any(n == "match" and unhx(kv["test"]) == s + b"x" for n, kv in ops)
@@ -195,6 +221,7 @@ class C08(CleanBase):
         shutil.copy(os.path.join(REPO, "go.sum"), os.path.join(mod, "go.sum"))
         w("a_test.go", A_TEST)
         w("z_test.go", Z_TEST)
+        w("q_test.go", Q_TEST)
         w("s_test.go", S_TEST)
         w("api.snapshot_test.go", 'package bb\n\nimport (\n\t"testing"\n\n\t"github.com/gkampitakis/go-snaps/snaps"\n)\n\n'
           'func TestSnapNamed(t *testing.T) { snaps.MatchSnapshot(t, "test file whose name contains .snap") }\n')
@@ -240,7 +267,7 @@ class C08(CleanBase):
                 listed = set(m.strip() for m in re.findall(r"^  ↳\s+•\s(.*)$", p.stdout, re.M))
                 owners = {"TestBeta_1.snap": ["TestBeta"], "custom_name.snap": ["TestBeta"], "TestSoleSkipper_1.snap": ["TestSoleSkipper"],
                           "s_test.snap": ["TestSoleSkipper"], "z_test.snap": ["TestZeta", "TestZeta/Sub2"],
-                          "api.snapshot_test.snap": ["TestSnapNamed"]}
+                          "api.snapshot_test.snap": ["TestSnapNamed"], "q_test.snap": ["TestQuery/schema"]}
                 gone = set()
                 for f, b in base_files.items():
                     lostf = f not in files
